@@ -377,6 +377,7 @@ func parent(prop string) {
 	if err != nil {
 		ev.Fatal("%v", err)
 	}
+	scratch = outdir
 	nsc := st.Scenarios(thorough).N
 	n := runtime.NumCPU()
 	if n > nsc {
@@ -430,11 +431,11 @@ func parent(prop string) {
 	for i := 0; i < n; i++ {
 		data, err := os.ReadFile(filepath.Join(outdir, fmt.Sprintf("res.%d.json", i)))
 		if err != nil {
-			ev.Fatal("missing worker result: %v", err)
+			die("missing worker result: %v", err)
 		}
 		var r workerResult
 		if err := json.Unmarshal(data, &r); err != nil {
-			ev.Fatal("worker result: %v", err)
+			die("worker result: %v", err)
 		}
 		total.Scenarios += r.Scenarios
 		total.Completed += r.Completed
@@ -539,6 +540,16 @@ func parent(prop string) {
 	run.Finish()
 }
 
+// scratch is the parent's scratch directory; die removes it before reporting an internal error.
+var scratch string
+
+func die(format string, a ...any) {
+	if scratch != "" {
+		_ = os.RemoveAll(scratch)
+	}
+	ev.Fatal(format, a...)
+}
+
 func jsonInts(a []int) string {
 	if a == nil {
 		return "[]"
@@ -567,7 +578,7 @@ func confirmRace(self, key, prop, tier string, f *found) {
 		if ee, ok := err.(*exec.ExitError); ok {
 			code = ee.ExitCode()
 		} else if err != nil {
-			ev.Fatal("confirm %s: %v", f.Key, err)
+			die("confirm %s: %v", f.Key, err)
 		}
 		return code, stderr.String()
 	}
@@ -575,11 +586,11 @@ func confirmRace(self, key, prop, tier string, f *found) {
 	for rep := 0; rep < 2; rep++ {
 		code, out := runOnce("halt_on_error=1 exitcode=66 history_size=2")
 		if code != 66 {
-			ev.Fatal("determinism guard: %s: schedule %v of scenario %d %s did not halt with exit code 66 on replay %d (exit %d): %s", f.Key, f.Choices, f.Scenario, f.Name, rep, code, tail(out, 800))
+			die("determinism guard: %s: schedule %v of scenario %d %s did not halt with exit code 66 on replay %d (exit %d): %s", f.Key, f.Choices, f.Scenario, f.Name, rep, code, tail(out, 800))
 		}
 		rs := parseRaces(out, prop)
 		if len(rs) != 1 || (rep == 1 && rs[0].Key != halted) {
-			ev.Fatal("determinism guard: %s: the two halting replays of schedule %v (scenario %d) disagree: %s", f.Key, f.Choices, f.Scenario, tail(out, 1500))
+			die("determinism guard: %s: the two halting replays of schedule %v (scenario %d) disagree: %s", f.Key, f.Choices, f.Scenario, tail(out, 1500))
 		}
 		halted = rs[0].Key
 	}
@@ -591,7 +602,7 @@ func confirmRace(self, key, prop, tier string, f *found) {
 			ok = ok || r.Key == f.Key
 		}
 		if code != 66 || !ok {
-			ev.Fatal("determinism guard: %s not reproduced by schedule %v of scenario %d (exit %d): %s", f.Key, f.Choices, f.Scenario, code, tail(out, 1500))
+			die("determinism guard: %s not reproduced by schedule %v of scenario %d (exit %d): %s", f.Key, f.Choices, f.Scenario, code, tail(out, 1500))
 		}
 	}
 }
